@@ -43,6 +43,7 @@ type World struct {
 	verifRoot string
 	sweep map[string]bool
 	closedElems map[string]bool
+	volatile map[string]string // volatile ghost arrays -> element sort
 }
 
 func loadWorld(repo, verifRoot string) (*World, error) {
@@ -97,11 +98,17 @@ func loadWorld(repo, verifRoot string) (*World, error) {
 			return nil, err
 		}
 	}
+	w.volatile = map[string]string{}
 	for _, gf := range w.db.Ghosts {
 		if w.ghost[gf.Owner] == nil {
 			w.ghost[gf.Owner] = map[string]*GhostField{}
 		}
 		w.ghost[gf.Owner][gf.Name] = gf
+		if gf.Volatile {
+			if t, err := w.parseType(gf.Type); err == nil {
+				w.volatile["G!"+gf.Owner+"!"+gf.Name] = sortOf(t)
+			}
+		}
 	}
 	return w, nil
 }
